@@ -227,9 +227,15 @@ def pySumLists : PVal → Except Err PVal
 
 /-- `np.array(list)` for flat numeric lists: all ints → int64, ints and floats → float64,
 empty → float64. Anything else (nested, strings, None, …) is outside the model. -/
+def PVal.int? : PVal → Option Rat
+  | .int i => some i | _ => none
+
+def PVal.num? : PVal → Option Rat
+  | .int i => some i | .flt q => some q | _ => none
+
 def npArray (l : List PVal) : Except Err Val :=
-  let ints := l.filterMap fun | PVal.int i => some (i : Rat) | _ => none
-  let nums := l.filterMap fun | PVal.int i => some (i : Rat) | PVal.flt q => some q | _ => none
+  let ints := l.filterMap PVal.int?
+  let nums := l.filterMap PVal.num?
   if l.isEmpty then .ok (.arr false [0] [])
   else if ints.length == l.length then .ok (.arr true [l.length] ints)
   else if nums.length == l.length then .ok (.arr false [l.length] nums)
@@ -258,70 +264,100 @@ def getDate (d : Dict PVal) (k : String) : Except Err Date :=
 def JCell.datesOk (c : JCell) : Bool :=
   ({ kind := c.kind, ps := c.ps, pe := c.pe, ev := c.ev, prev := c.prev } : Cell).datesOk
 
-/-- `_parse_observation` -/
-def parseObservation (d : Dict PVal) : Except Err PVal := do
-  let vals ← match d.get? "values" with
-    | some (.dict kvs) => kvs.mapM fun kv => do pure (kv.1, ← preVal kv.2)
-    | _ => .error .other                      -- no `.items()`: AttributeError
-  let incr := d.contains "prev_evaluation_date"
-  let ps ← getDate d "period_start"
-  let pe ← getDate d "period_end"
-  let ev ← getDate d "evaluation_date"
-  let prev ← if incr then (getDate d "prev_evaluation_date").map some else pure none
-  -- constructor: value types, then date rules
-  let values ← vals.mapM fun kv => match kv.2 with
+/-- `{k: np.array(v) if isinstance(v, list) else v for k, v in obj["values"].items()}` -/
+def pValues (d : Dict PVal) : Except Err (List (String × PreVal)) :=
+  match d.get? "values" with
+  | some (.dict kvs) => kvs.mapM fun kv => (preVal kv.2).map fun v => (kv.1, v)
+  | _ => .error .other                      -- no `.items()`: AttributeError
+
+/-- the constructor's `isinstance(val, CellValue)` check -/
+def checkValues (vals : List (String × PreVal)) : Except Err (Dict Val) :=
+  vals.mapM fun kv => match kv.2 with
     | .val v => Except.ok (kv.1, v)
     | .bad => Except.error Err.typeError
-  let c : JCell := { kind := if incr then .incremental else .cumulative, ps := ps, pe := pe,
-                     ev := ev, prev := prev, values := values, md := {} }
-  if c.datesOk then pure (.cell c) else .error .valueError
+
+def pPrev (d : Dict PVal) : Except Err (Option Date) :=
+  if d.contains "prev_evaluation_date" then (getDate d "prev_evaluation_date").map some else .ok none
+
+def mkObservation (incr : Bool) (ps pe ev : Date) (prev : Option Date) (values : Dict Val) : JCell :=
+  { kind := if incr then .incremental else .cumulative, ps := ps, pe := pe, ev := ev, prev := prev,
+    values := values, md := {} }
+
+/-- `_parse_observation`: values first (numpy), then the dates left to right, then the cell
+constructor (value types, then date rules) -/
+def parseObservation (d : Dict PVal) : Except Err PVal :=
+  (pValues d).bind fun vals =>
+  (getDate d "period_start").bind fun ps =>
+  (getDate d "period_end").bind fun pe =>
+  (getDate d "evaluation_date").bind fun ev =>
+  (pPrev d).bind fun prev =>
+  (checkValues vals).bind fun values =>
+  let c := mkObservation (d.contains "prev_evaluation_date") ps pe ev prev values
+  if c.datesOk then .ok (.cell c) else .error .valueError
 
 def PVal.scalar? : PVal → Option Scalar
   | .null => some .null | .bool b => some (.bool b) | .int i => some (.int i)
   | .flt q => some (.flt q) | .str s => some (.str s) | _ => none
 
-/-- `_parse_cell_set`: `Metadata(...)` (its `__post_init__` type checks) from `obj.get`s, then
-`[ob.replace(metadata=metadata) for ob in obj["cells"]]` -/
-def parseCellSet (d : Dict PVal) : Except Err PVal := do
-  let strAttr (k : String) (dflt : Option String) : Except Err (Option String) :=
-    match d.get? k with
-    | none => .ok dflt
-    | some .null => .ok none
-    | some (.str s) => .ok (some s)
-    | some _ => .error .typeError
-  let detailAttr (k : String) : Except Err (Dict Scalar) :=
-    match d.get? k with
-    | none => .ok []
-    | some (.dict kvs) => kvs.mapM fun kv => match kv.2.scalar? with
-        | some s => Except.ok (kv.1, s)
-        | none => Except.error Err.typeError
-    | some _ => .error .typeError
-  let rb ← strAttr "risk_basis" (some "Accident")
-  let co ← strAttr "country" none
-  let cu ← strAttr "currency" none
-  let re ← strAttr "reinsurance_basis" none
-  let ld ← strAttr "loss_definition" none
-  let lim ← match d.get? "per_occurrence_limit" with
-    | none => Except.ok Scalar.null
-    | some .null => .ok .null
-    | some (.bool b) => .ok (.bool b)
-    | some (.int i) => .ok (.int i)
-    | some (.flt q) => .ok (.flt q)
-    | some _ => .error .typeError
-  let det ← detailAttr "details"
-  let ldet ← detailAttr "loss_details"
-  let md : JMeta := { riskBasis := rb, country := co, currency := cu, reinsuranceBasis := re,
-                      lossDefinition := ld, limit := lim, details := det, lossDetails := ldet }
+/-- `obj.get(k, dflt)` for a string attribute, with `Metadata.__post_init__`'s type check -/
+def pStrAttr (d : Dict PVal) (k : String) (dflt : Option String) : Except Err (Option String) :=
+  match d.get? k with
+  | none => .ok dflt
+  | some .null => .ok none
+  | some (.str s) => .ok (some s)
+  | some _ => .error .typeError
+
+/-- a detail value must be a `MetadataValue`: str / int / float / bool / None -/
+def detailScalar (kv : String × PVal) : Except Err (String × Scalar) :=
+  match kv.2.scalar? with
+  | some s => .ok (kv.1, s)
+  | none => .error .typeError
+
+/-- `ob.replace(metadata=metadata)` on whatever is in the list -/
+def replaceMeta (md : JMeta) : PVal → Except Err PVal
+  | .cell c => .ok (.cell { c with md := md })
+  | .str _ => .error .typeError       -- `str.replace` takes no keyword arguments
+  | _ => .error .other                 -- AttributeError
+
+/-- `obj.get(k, {})` for `details` / `loss_details`, with the type check -/
+def pDetailAttr (d : Dict PVal) (k : String) : Except Err (Dict Scalar) :=
+  match d.get? k with
+  | none => .ok []
+  | some (.dict kvs) => kvs.mapM detailScalar
+  | some _ => .error .typeError
+
+/-- `obj.get("per_occurrence_limit")`: int / float / None (`True` is an `int`) -/
+def pLimit (d : Dict PVal) : Except Err Scalar :=
+  match d.get? "per_occurrence_limit" with
+  | none => .ok .null
+  | some .null => .ok .null
+  | some (.bool b) => .ok (.bool b)
+  | some (.int i) => .ok (.int i)
+  | some (.flt q) => .ok (.flt q)
+  | some _ => .error .typeError
+
+/-- `[ob.replace(metadata=metadata) for ob in obj["cells"]]` -/
+def pCells (d : Dict PVal) (md : JMeta) : Except Err PVal :=
   match d.get? "cells" with
   | some (.list obs) =>
-    let cells ← obs.mapM fun ob => match ob with
-      | PVal.cell c => Except.ok (PVal.cell { c with md := md })
-      | PVal.str _ => Except.error Err.typeError     -- `str.replace` takes no keyword arguments
-      | _ => Except.error Err.other                   -- AttributeError
-    pure (.list cells)
-  | some (.str s) => if s.isEmpty then pure (.list []) else .error .typeError
-  | some (.dict kvs) => if kvs.isEmpty then pure (.list []) else .error .typeError
+    (obs.mapM (replaceMeta md)).map PVal.list
+  | some (.str s) => if s.isEmpty then .ok (.list []) else .error .typeError
+  | some (.dict kvs) => if kvs.isEmpty then .ok (.list []) else .error .typeError
   | _ => .error .typeError
+
+/-- `_parse_cell_set`: `Metadata(...)` (its `__post_init__` type checks) from `obj.get`s, then
+the cells get that metadata -/
+def parseCellSet (d : Dict PVal) : Except Err PVal :=
+  (pStrAttr d "risk_basis" (some "Accident")).bind fun rb =>
+  (pStrAttr d "country" none).bind fun co =>
+  (pStrAttr d "currency" none).bind fun cu =>
+  (pStrAttr d "reinsurance_basis" none).bind fun re =>
+  (pStrAttr d "loss_definition" none).bind fun ld =>
+  (pLimit d).bind fun lim =>
+  (pDetailAttr d "details").bind fun det =>
+  (pDetailAttr d "loss_details").bind fun ldet =>
+  pCells d { riskBasis := rb, country := co, currency := cu, reinsuranceBasis := re,
+             lossDefinition := ld, limit := lim, details := det, lossDetails := ldet }
 
 /-- `TriangleDecoder.object_hook` -/
 def objectHook (d : Dict PVal) : Except Err PVal :=
